@@ -456,6 +456,14 @@ func genCase(r *hx.Rand, length int, safe bool) tcase {
 			if len(n.steps) >= 2 && r.Chance(1, 2) { // equal times: the later-listed one wins
 				n.steps[len(n.steps)-1].at = n.steps[0].at
 			}
+			if r.Chance(1, 4) {
+				// a long schedule with many equal times (a base schedule with overrides appended):
+				// library sort routines change algorithm with the length of the input
+				n.steps = n.steps[:0]
+				for s := r.Range(13, 40); s > 0; s-- {
+					n.steps = append(n.steps, stepSpec{c.now0 + int64(r.Range(-2, 12)), int64(r.Range(10, 99))})
+				}
+			}
 			c.nodes = append(c.nodes, n)
 		default:
 			c.nodes = append(c.nodes, nodeSpec{kind: "var", v0: int64(r.Range(100, 199))})
